@@ -277,6 +277,19 @@ def run_alias(spec, acc, api):
             if not ok:
                 acc.violation('alias-differs', f'{alias}({args!r}) = {real!r:.300}, documented alias {target} gives {exp!r:.300}',
                               {'alias': alias, 'args': refval.enc(args)})
+            # the value of a call does not depend on the logging configuration (debug mode with a log function only ADDS log lines)
+            if alias not in NONDET:
+                dlogs = []
+                try:
+                    real_dbg = ('ok', evaluate_expression(expr, {'globals': dict(g), 'logFn': dlogs.append, 'debug': True}, None, True))
+                except rt_err as exc:
+                    real_dbg = ('rterr', str(exc))
+                except Exception as exc:  # pylint: disable=broad-except
+                    real_dbg = ('host-exception', f'{type(exc).__name__}: {exc}')
+                acc.count('debug_mode_comparisons')
+                if real_dbg[0] != real[0] or not (same_value(real_dbg[1], real[1]) if real[0] == 'ok' else real_dbg[1] == real[1]):
+                    acc.violation('value-depends-on-debug-mode', f'{alias}({args!r}) = {real!r:.200} without logging, {real_dbg!r:.200} with logFn and debug',
+                                  {'alias': alias, 'args': refval.enc(args)})
             # script mode: the alias name is not defined
             try:
                 evaluate_expression(expr, {'globals': dict(g)}, None, False)
